@@ -1,25 +1,41 @@
 SPEC = {
     "property": "C17",
-    "rule": "random histories on <= 9 vertex handles: an initial complex (a random 1-skeleton built with add_edge_without_blockers plus "
-            "0-6 valid blockers added with add_blocker, or the constructor from a simplex list / make_complex_from_top_faces on random "
-            "top faces), then 4-24 (config mixed) or 40-90 (config long) operations among add_vertex, add_edge, add_edge_without_blockers, "
-            "add_simplex (a blocker, a superset of a blocker, or a random absent simplex with missing faces/edges), remove_star of a "
-            "vertex / edge / simplex of dimension >= 2 (all overloads; half of them aimed inside a blocker of dimension >= 2 more), "
-            "contract_edge (both overloads; edges inside a blocker, next to a blocker, or anywhere), add_blocker on a simplex, copy "
-            "round trip. After EVERY step: contains() of all 2^N-1 vertex subsets against a bitmask model of the abstract complex; "
-            "blocker_range / num_blockers / contains_blocker / blocker_range(v) against the minimal non-faces of dimension >= 2 of the "
-            "model; vertex, edge and simplex ranges and counts, degrees, num_connected_components; star_simplex_range, coboundary_range "
-            "and link (vertices, membership of every subset, blockers) of random simplices. link_condition() is compared with the "
-            "definition Lk(ab)=Lk(a)/\\Lk(b) on the model, and a contraction under the link condition must keep the Betti numbers over "
-            "Z_2 and Z_3 and the Euler characteristic of the simplex set enumerated from contains() (oracle/zp_reduce.h). "
-            "non-trivial = history (distinct by hash) that reached a state with >= 1 blocker and applied add_simplex, an add_edge closing "
-            "triangles, or a remove_star / contract_edge on a state with blockers",
+    "rule": "random histories on <= 9 vertex handles (config wide: <= 12, initial complexes on 8-11 vertices): an initial complex (a random "
+            "1-skeleton built with add_edge_without_blockers plus 0-6 valid blockers added with add_blocker; the constructor from a simplex "
+            "list / make_complex_from_top_faces on random top faces, with is_flag_complex=true for half of those without a minimal non-face "
+            "of dimension >= 2; or the clique complex of a random graph through either constructor with is_flag_complex=true), then 4-24 "
+            "(config mixed), 40-90 (config long) or 4-16 (config wide) operations among add_vertex; add_edge / add_edge_without_blockers "
+            "on an absent edge, on an edge that is already there (model: nothing changes) and their overloads taking a simplex (present, "
+            "absent and mixed edges); add_simplex of a blocker (half of the time passing *blocker_handle, the object stored in the "
+            "complex), of a superset of a blocker, of a random absent simplex with missing faces/edges, of a simplex with 1-2 vertex "
+            "handles that do not exist yet (with and without earlier vertex removals / contractions; model: every handle up to the "
+            "largest one of the simplex is created) and of a simplex of dimension >= 2 that is already in the complex (model: nothing "
+            "changes); remove_star of a vertex / edge / simplex of dimension >= 2 (all overloads; half of them aimed inside a blocker of "
+            "dimension >= 2 more), contract_edge (both overloads; edges inside a blocker, next to a blocker, or anywhere), add_blocker "
+            "on a simplex, copy round trip. After EVERY step: contains() of all 2^N-1 vertex subsets against a bitmask model of the "
+            "abstract complex; blocker_range / num_blockers / contains_blocker / blocker_range(v) against the minimal non-faces of "
+            "dimension >= 2 of the model; vertex, edge, triangle and simplex ranges and counts (vertex_range, edge_range, triangle_range, "
+            "num_triangles, complex_simplex_range, num_simplices), vertex_range(v) / edge_range(v) / triangle_range(v) of every vertex, "
+            "get_vertices(e) of every edge, degrees, num_connected_components; star_simplex_range, coboundary_range and link (vertices, "
+            "membership of every subset, blockers) of random simplices, link(Edge_handle) and link_condition(Edge_handle) of random "
+            "edges; the Edge_handle returned by add_edge / add_edge_without_blockers. link_condition() is compared with the definition "
+            "Lk(ab)=Lk(a)/\\Lk(b) on the model, and a contraction under the link condition must keep the Betti numbers over Z_2 and "
+            "Z_3 and the Euler characteristic of the simplex set enumerated from contains() (oracle/zp_reduce.h). Unit skbl_geom runs "
+            "config mixed on Skeleton_blocker_geometric_complex (its own constructors, add_vertex(point)) and also checks that point(v) "
+            "of every vertex, and the points of the vertices of links, are the points given at creation. "
+            "non-trivial = history (distinct by hash) that reached a state with >= 1 blocker and applied add_simplex of an absent "
+            "simplex, an add_edge closing triangles, or a remove_star / contract_edge on a state with blockers",
     "assumptions": [
-        "operations respect the documented preconditions by construction: remove_star / contract_edge only on simplices / edges of the complex, "
-        "add_simplex only on absent simplices of dimension >= 2 whose vertices are present, add_blocker only on a simplex of the complex that "
-        "is not a face of an existing blocker",
+        "operations respect the documented preconditions by construction: remove_star / contract_edge only on simplices / edges of the complex "
+        "(contract_edge of two non-adjacent vertices is not exercised), add_simplex only on simplices of dimension >= 2 whose vertices are "
+        "present or have never existed (a handle of a removed vertex is never passed again), add_blocker only on a simplex of the complex "
+        "that is not a face of an existing blocker",
+        "add_simplex(*blocker_handle) is first run in a forked copy of the process (followed there by contains() of every subset); only if "
+        "that copy survives is the call made in the harness process itself",
         "remove_edge / remove_vertex / remove_blockers / keep_only_vertices (which do not maintain the blocker set) and popable-blocker "
-        "removal are not part of the histories",
+        "removal (remove_popable_blockers, link_condition(.., ignore_popable_blockers=true)) are not part of the histories; neither are "
+        "self-assignment (c = c), queries with handles that never existed or Root_vertex_handle(-1), and ranges taken on a temporary "
+        "simplex (coboundary_range(Simplex(..)) keeps a reference to its argument)",
         "the bitmask model in harness/c17_skeleton_blocker/c17_skeleton_blocker.cpp and oracle/zp_reduce.h are the trusted oracles",
         "after the known over-deletion of remove_star(vertex|edge) inside a blocker (signature *,inside_blocker,lost_exactly_blocker_residue_star) "
         "the model is reloaded from the implementation's contains() answers and the history continues; if the implementation's own state is then "
@@ -29,7 +45,10 @@ SPEC = {
     ],
     "units": [
         {"name": "skbl", "src": ["c17_skeleton_blocker.cpp"], "variant": "asan",
-         "configs": {"mixed": {"quick": 3000, "thorough": 300000}, "long": {"quick": 300, "thorough": 10000}}, "chunk": 25},
+         "configs": {"mixed": {"quick": 3000, "thorough": 300000}, "long": {"quick": 300, "thorough": 10000},
+                     "wide": {"quick": 160, "thorough": 8000}}, "chunk": 10},
+        {"name": "skbl_geom", "src": ["c17_skeleton_blocker.cpp"], "variant": "asan", "defs": ["C17_GEOM"],
+         "configs": {"mixed": {"quick": 600, "thorough": 60000}}, "chunk": 25},
         {"name": "skbl_g", "src": ["c17_skeleton_blocker.cpp"], "variant": "gasan", "tiers": ["thorough"],
          "configs": {"mixed": {"thorough": 30000}}, "chunk": 25},
     ],
@@ -41,26 +60,41 @@ SPEC = {
                   "op.add_simplex.boundary_present": 800, "op.add_simplex.edges_missing": 1200, "op.add_simplex.faces_missing": 100,
                   "op.add_edge.closing_triangles": 600, "op.add_edge_without_blockers.closing_triangles": 600,
                   "init.from_top_faces": 300, "init.from_simplex_list": 300,
-                  "state.with_blockers": 7000, "cmp.link_blockers": 30000, "steps": 17000, "_distinct_nontrivial": 800},
+                  "state.with_blockers": 7000, "cmp.link_blockers": 30000, "steps": 17000, "_distinct_nontrivial": 800,
+                  # input classes added after the audit (about half of what seed 1 measures)
+                  "op.add_simplex.arg_is_stored_blocker": 450, "op.add_simplex.new_vertex.after_removal": 350,
+                  "op.add_simplex.new_vertex.no_removal": 200, "op.add_simplex.already_present.with_cofaces": 230,
+                  "op.add_edge.already_present": 420, "op.add_edge_without_blockers.already_present": 400,
+                  "op.add_edge.simplex_overload": 480, "op.add_edge_without_blockers.simplex_overload": 470,
+                  "init.flag_option.top_faces": 230, "init.flag_option.simplex_list": 210, "state.handles_gt_9": 450,
+                  "cmp.triangle_range_around_vertex": 110000, "cmp.get_vertices": 180000, "cmp.link_edge_handle": 40000,
+                  "cmp.point": 15000, "cmp.link_point": 17000},
         "thorough": {"op.remove_star.inside_blocker": 60000, "op.contract_edge.link_condition_ok": 150000,
                      "op.contract_edge.link_condition_violated": 100000, "op.contract_edge.link_condition_ok.blockers_at_endpoints": 15000,
                      "op.add_simplex.boundary_present": 80000, "op.add_simplex.faces_missing": 10000,
-                     "state.with_blockers": 600000, "steps": 1300000, "_distinct_nontrivial": 80000},
+                     "state.with_blockers": 600000, "steps": 1300000, "_distinct_nontrivial": 80000,
+                     "op.add_simplex.arg_is_stored_blocker": 18000, "op.add_simplex.new_vertex.after_removal": 14000,
+                     "op.add_simplex.already_present.with_cofaces": 9000, "op.add_edge.already_present": 17000,
+                     "op.add_edge.simplex_overload": 19000, "init.flag_option.top_faces": 9000, "state.handles_gt_9": 18000},
     },
     "exhaustive": {"quick": False, "thorough": False},
-    "exhaustive_note": "queries are exhaustive per step (every non-empty subset of the <= 9 vertex handles is passed to contains() and "
+    "exhaustive_note": "queries are exhaustive per step (every non-empty subset of the <= 9 (wide: <= 12) vertex handles is passed to contains() and "
                        "contains_blocker() after every operation); histories and initial complexes are sampled",
     "manifest": {
-        "text": "Runtime monitor: random edit histories (vertex / edge / simplex additions, star removals of vertices, edges and higher "
-                "simplices, edge contractions with and without the link condition, blocker additions, copies) drive Skeleton_blocker_complex "
-                "under ASan+UBSan; after every operation contains() of every vertex subset is compared with an independent bitmask model of "
+        "text": "Runtime monitor: random edit histories (vertex / edge / simplex additions - including edges and simplices that are already "
+                "there, simplices on vertices that do not exist yet and a blocker passed as the object stored in the complex -, star removals "
+                "of vertices, edges and higher simplices, edge contractions with and without the link condition, blocker additions, copies) "
+                "drive Skeleton_blocker_complex and Skeleton_blocker_geometric_complex under ASan+UBSan; after every operation contains() of every vertex subset is compared with an independent bitmask model of "
                 "the abstract complex (union with faces / deletion of exactly the star / image under vertex identification), the blocker set "
-                "with the model's minimal non-faces, and counts, ranges, connected components, links, stars and coboundaries with the model; "
+                "with the model's minimal non-faces, and counts, ranges (vertices, edges, triangles, simplices, also around each vertex), "
+                "connected components, links, stars and coboundaries with the model; "
                 "contractions under the link condition must preserve Betti numbers (Z_2, Z_3) and Euler characteristic computed by an "
                 "independent reduction. Held on what was observed, not a proof. Known finding: remove_star of a vertex or edge lying in a "
                 "blocker of dimension >= 2 more also deletes the star of (blocker minus removed simplex); an existing unit test encodes it.",
-        "note": "trusted: bitmask model in the harness, oracle/zp_reduce.h, libstdc++/boost; <= 9 vertex handles per history; preconditions "
-                "respected by construction; remove_edge/remove_vertex/popable-blocker operations not exercised; after the known star-removal "
+        "note": "trusted: bitmask model in the harness, oracle/zp_reduce.h, libstdc++/boost; <= 9 vertex handles per history (<= 12 in a "
+                "low-count config); preconditions respected by construction; remove_edge/remove_vertex/keep_only_vertices/popable-blocker "
+                "operations, self-assignment, handles of removed or never-created vertices in queries, and contraction of non-adjacent "
+                "vertices are not exercised; after the known star-removal "
                 "over-deletion the model is resynchronised from contains() (or the history abandoned when the library state is inconsistent)",
         "technique": "runtime monitoring: randomized operation histories + reference-model oracle swept exhaustively over all vertex subsets "
                      "after every step, homotopy invariants by independent Z_p reduction, under AddressSanitizer/UBSan",
